@@ -98,7 +98,7 @@ func (w *world) joinItx(kind string) hg.InternalTransaction {
 func (w *world) joinRun(kind string) {
 	rng := rand.New(rand.NewSource(seed))
 	n, moniker := 3, kind
-	if kind == "hostile" {
+	if kind == "hostile" || kind == "hostile-bsig" {
 		n, moniker = 4, "ufffd"
 	}
 	cores := w.newCores(n)
@@ -112,11 +112,37 @@ func (w *world) joinRun(kind string) {
 		return strings.Join(b, ",")
 	}
 	for step := 0; step < 400; step++ {
-		if step == 10 {
+		if step == 10 && kind != "hostile-bsig" {
 			cores[0].c.AddInternalTransaction(w.joinItx(moniker))
 		}
 		a := rng.Intn(n)
 		b := (a + 1 + rng.Intn(n-1)) % n
+		if kind == "hostile-bsig" && step >= 10 {
+			if step == 10 {
+				// validator 0 hand-crafts its next event with a block signature string "\ufffd", signs it and
+				// pushes it to validator 1; then it goes silent
+				pull(cores[1], cores[0], nil, nil) // validator 1 knows validator 0's head
+				e := hg.NewEvent(nil, nil, []hg.BlockSignature{{Validator: w.pubs[0], Index: 0, Signature: "\ufffd"}},
+					[]string{cores[0].c.Head(), ""}, w.pubs[0], cores[0].c.Seq()+1)
+				e.Sign(w.privs[0])
+				// delivered as a normal sync from validator 0, so that validator 1 builds on it
+				if err := cores[0].c.Hg().SetWireInfo(e); err != nil {
+					die("crafted event wire info: %v", err)
+				}
+				cores[1].c.AddTransactions([][]byte{[]byte("tx-after-crafted")})
+				if err := cores[1].c.Sync(cores[0].c.ValidatorID(), []hg.WireEvent{e.ToWire()}); err != nil {
+					errs++
+					lastErr = "crafted event: " + err.Error()
+				}
+				if _, err := cores[1].c.Hg().Store.GetEvent(e.Hex()); err == nil {
+					fmt.Println("STEP crafted event admitted")
+				} else {
+					fmt.Println("STEP crafted event refused")
+				}
+			}
+			a = 1 + rng.Intn(3)
+			b = 1 + (a+rng.Intn(2))%3
+		}
 		if err := pull(cores[a], cores[b], []byte(fmt.Sprintf("tx%d", step)), nil); err != nil {
 			errs++
 			lastErr = err.Error()
@@ -237,6 +263,12 @@ func (w *world) replayJoin(l *links) {
 			violation("frame-hash-hangs", fmt.Sprintf("fast-forward-response str:UFFFD: core.fastForward does not return after %q (Frame.Hash)", last))
 		} else if !strings.HasPrefix(last, "DONE") || strings.Contains(last, `ff-error="<nil>"`) {
 			violation("tampered-frame-accepted", "fast-forward-response str:UFFFD "+last)
+		}
+	}
+	if fin, last := runJoinChild("hostile-bsig"); true {
+		fmt.Fprintf(out, "Z replay ufffd-join hostile-validator-block-signature finished=%v last=%q\n", fin, last)
+		if !fin {
+			violation("frame-hash-hangs", fmt.Sprintf("hostile-validator block-signature str:UFFFD: no progress for 5 s after %q (cores spin in Frame.Hash)", last))
 		}
 	}
 	fin, last := runJoinChild("hostile")
